@@ -246,6 +246,30 @@ theorem ceilTo_id (b : Bandwidth) (pre : Int) (hp : pre ≤ 0) : Bandwidth.CeilT
   simp only [this, decide_false, Bool.not_false, if_true]
   rfl
 
+/-! ### The ends of the share range and the empty coin
+
+A zero share gives a zero coin, the full share gives the whole coin, a zero coin gives a zero coin
+(seeded change C16w14 returned the whole coin for a zero share). -/
+
+theorem shareSpec_zero_share (a : Nat) : shareSpec a 0 = 0 := by
+  unfold shareSpec Dec.chopRoundNat; simp
+
+theorem shareSpec_full_share (a : Nat) : shareSpec a (10 ^ 18) = a := by
+  unfold shareSpec; exact Dec.chopRoundNat_mul a
+
+theorem shareSpec_zero_coin (s : Nat) : shareSpec 0 s = 0 := by
+  unfold shareSpec Dec.chopRoundNat; simp
+
+theorem proportion_zero_share (d : Denom) (a : Nat) (hd : validDenom d = true) (ha : a < B255) :
+    GetProportionOfCoin ⟨d, (a : Int)⟩ ((0 : Nat) : Int) = .ok ⟨d, 0⟩ := by
+  have := proportion_exact d a 0 hd ha (by norm_num)
+  rw [shareSpec_zero_share] at this; exact this
+
+theorem proportion_full_share (d : Denom) (a : Nat) (hd : validDenom d = true) (ha : a < B255) :
+    GetProportionOfCoin ⟨d, (a : Int)⟩ ((10 ^ 18 : Nat) : Int) = .ok ⟨d, (a : Int)⟩ := by
+  have := proportion_exact d a (10 ^ 18) hd ha (by norm_num)
+  rw [shareSpec_full_share] at this; exact this
+
 /-! Non-vacuity: concrete values inside every hypothesis. -/
 example : AmountForBytes 7 1500000001 = .ok 11 := by
   have := afb_exact 7 1500000001 (by norm_num) (by norm_num)
